@@ -170,7 +170,7 @@ pub const TOTAL_SHREDS: usize = 64;
 
 pub open spec fn row_at(sh: Map<SliceIndex, [Option<ValidatedShred>; TOTAL_SHREDS]>, k: SliceIndex, i: int) -> Option<ValidatedShred> { sh[k]@[i] }
 pub open spec fn wf_parts(sl: Map<SliceIndex, ReconstructedSlice>, sh: Map<SliceIndex, [Option<ValidatedShred>; TOTAL_SHREDS]>,
-                          cc: Map<SliceIndex, SliceCommitment>, last: Option<SliceIndex>, leaves: Option<nat>) -> bool {
+                          cc: Map<SliceIndex, (SliceCommitment, Signature)>, last: Option<SliceIndex>, leaves: Option<nat>) -> bool {
     &&& sl.dom().finite() && sh.dom().finite()
     // W6: the double-Merkle tree, once built, has one leaf per slice up to the last one
     &&& (leaves matches Some(n) ==> last is Some && n == (last->0).0 + 1)
@@ -181,10 +181,12 @@ pub open spec fn wf_parts(sl: Map<SliceIndex, ReconstructedSlice>, sh: Map<Slice
     // W2: a reconstructed first slice names a parent
     &&& (sl.contains_key(SliceIndex(0)) ==> sl[SliceIndex(0)].parent is Some)
     // W4/W5: every stored shred sits under its own slice index and carries the commitment cached for that slice
-    //        (so two conflicting versions of a slice are never stored side by side)
+    //        (so two conflicting versions of a slice are never stored side by side) ...
+    // W8:    ... and the SIGNATURE kept with that commitment: the one of the shred that populated the cache entry, which was
+    //        checked (finding F22) - so whatever is served or copied onto rebuilt shreds carries a checked signature
     &&& forall|k: SliceIndex, i: int| sh.contains_key(k) && 0 <= i < TOTAL_SHREDS && (#[trigger] row_at(sh, k, i)) is Some ==>
             (row_at(sh, k, i)->0).spec_payload().header.slice_index == k
-            && cc.contains_key(k) && cc[k] == (row_at(sh, k, i)->0).spec_commitment()
+            && cc.contains_key(k) && cc[k] == ((row_at(sh, k, i)->0).spec_commitment(), (row_at(sh, k, i)->0).spec_sig())
 }
 
 impl BlockData {
@@ -198,7 +200,7 @@ impl BlockData {
     pub open spec fn cc(&self) -> Map<SliceIndex, SliceCommitment> {
         self.commitment_cache@.map_values(|p: (SliceCommitment, Signature)| p.0)
     }
-    pub open spec fn wf(&self) -> bool { wf_parts(self.slices@, self.shreds@, self.cc(), self.last_slice, self.tree_leaves()) }
+    pub open spec fn wf(&self) -> bool { wf_parts(self.slices@, self.shreds@, self.commitment_cache@, self.last_slice, self.tree_leaves()) }
     pub open spec fn last_consistent(l: SliceIndex, si: SliceIndex, is_last: bool) -> bool {
         (si.0 < l.0 && !is_last) || (si == l && is_last)
     }
@@ -215,23 +217,25 @@ pub proof fn lemma_rows_after_deshred(pre: BlockData, cur: BlockData, index: Sli
         forall|i: int| 0 <= i < TOTAL_SHREDS && (#[trigger] row1@[i]) is Some && row0@[i] is None ==>
             exists|j: int| 0 <= j < TOTAL_SHREDS && row0@[j] is Some
                 && (row1@[i]->0).spec_payload().header == (row0@[j]->0).spec_payload().header
-                && (row1@[i]->0).spec_commitment() == (row0@[j]->0).spec_commitment(),
+                && (row1@[i]->0).spec_commitment() == (row0@[j]->0).spec_commitment()
+                && (row1@[i]->0).spec_sig() == (row0@[j]->0).spec_sig(),
     ensures
         forall|k: SliceIndex, i: int| cur.shreds@.contains_key(k) && 0 <= i < TOTAL_SHREDS && (#[trigger] row_at(cur.shreds@, k, i)) is Some ==>
             (row_at(cur.shreds@, k, i)->0).spec_payload().header.slice_index == k
-            && cur.cc().contains_key(k) && cur.cc()[k] == (row_at(cur.shreds@, k, i)->0).spec_commitment(),
+            && cur.commitment_cache@.contains_key(k) && cur.commitment_cache@[k] == ((row_at(cur.shreds@, k, i)->0).spec_commitment(), (row_at(cur.shreds@, k, i)->0).spec_sig()),
         forall|k: SliceIndex| #[trigger] cur.shreds@.contains_key(k) <==> pre.shreds@.contains_key(k),
         forall|k: SliceIndex, i: int| pre.shreds@.contains_key(k) && 0 <= i < TOTAL_SHREDS && (#[trigger] row_at(pre.shreds@, k, i)) is Some
             ==> row_at(cur.shreds@, k, i) == row_at(pre.shreds@, k, i),
 {
     assert forall|k: SliceIndex, i: int| cur.shreds@.contains_key(k) && 0 <= i < TOTAL_SHREDS && (#[trigger] row_at(cur.shreds@, k, i)) is Some implies
         (row_at(cur.shreds@, k, i)->0).spec_payload().header.slice_index == k
-        && cur.cc().contains_key(k) && cur.cc()[k] == (row_at(cur.shreds@, k, i)->0).spec_commitment() by {
+        && cur.commitment_cache@.contains_key(k) && cur.commitment_cache@[k] == ((row_at(cur.shreds@, k, i)->0).spec_commitment(), (row_at(cur.shreds@, k, i)->0).spec_sig()) by {
         if k == index {
             if row0@[i] is Some { assert(row_at(pre.shreds@, k, i) == row0@[i]); } else {
                 let j = choose|j: int| 0 <= j < TOTAL_SHREDS && row0@[j] is Some
                     && (row1@[i]->0).spec_payload().header == (row0@[j]->0).spec_payload().header
-                    && (row1@[i]->0).spec_commitment() == (row0@[j]->0).spec_commitment();
+                    && (row1@[i]->0).spec_commitment() == (row0@[j]->0).spec_commitment()
+                    && (row1@[i]->0).spec_sig() == (row0@[j]->0).spec_sig();
                 assert(row_at(pre.shreds@, index, j) is Some);
             }
         } else { assert(row_at(cur.shreds@, k, i) == row_at(pre.shreds@, k, i)); }
@@ -433,7 +437,9 @@ impl RegularShredder {
             forall|i: int| 0 <= i < TOTAL_SHREDS && (#[trigger] final(shreds)@[i]) is Some && old(shreds)@[i] is None ==>
                 exists|j: int| 0 <= j < TOTAL_SHREDS && old(shreds)@[j] is Some
                     && (final(shreds)@[i]->0).spec_payload().header == (old(shreds)@[j]->0).spec_payload().header
-                    && (final(shreds)@[i]->0).spec_commitment() == (old(shreds)@[j]->0).spec_commitment(),
+                    && (final(shreds)@[i]->0).spec_commitment() == (old(shreds)@[j]->0).spec_commitment()
+                    // (fill_missing_shreds gives every rebuilt shred the signature of a present one: PROVED in units deshred / shred_fill)
+                    && (final(shreds)@[i]->0).spec_sig() == (old(shreds)@[j]->0).spec_sig(),
             r matches Ok(sl) ==> exists|j: int| 0 <= j < TOTAL_SHREDS && old(shreds)@[j] is Some
                     && sl.slice_index == (#[trigger] old(shreds)@[j]->0).spec_payload().header.slice_index,
     { unimplemented!() }
@@ -527,6 +533,33 @@ rewrite[R8] `block_data .shreds .get(&slice_index)? .iter() .find_map(|s| s.as_r
 ensures
         // [C14.slice_root_served_only_for_a_held_slice]
         r is Some ==> self.has_slice(*block_id, slice_index),
+@*/
+/*@ extract src/consensus/blockstore.rs :: impl Blockstore for BlockstoreImpl/fn get_shred
+props C14 C13
+ret r
+rewrite[R8] `slice_shreds[*shred_index].as_ref()` => `slice_shreds[shred_index.inner()].as_ref()`
+requires
+        self.store_wf(),
+        shred_index.0 < TOTAL_SHREDS,
+ensures
+        // [C14.served_shred_is_the_stored_one_at_that_position] (slot / slice / position of what is served: W4)
+        r matches Some(v) ==> v.spec_payload().header.slice_index == slice_index,
+        // [C14.served_shred_carries_the_verified_signature_of_its_slice C13.served_shred_carries_the_verified_signature_of_its_slice]
+        // whatever shred of a held block the node serves - received, normalised on arrival or rebuilt by deshred - carries the
+        // signature kept with the slice's cached commitment, i.e. that of the shred that populated the entry and was checked (F22)
+        r matches Some(v) ==> (self.data_of(*block_id) matches Some(bd) && bd.commitment_cache@.contains_key(slice_index)
+            && v.spec_sig() == bd.commitment_cache@[slice_index].1 && v.spec_commitment() == bd.commitment_cache@[slice_index].0),
+before `let slice_shreds = block_data.shreds.get(&slice_index)?;`
+        proof {
+            assert(self.data_of(*block_id) == Some(*block_data));
+            assert(self.block_data@[block_id.0].all_wf());
+            assert(block_data.wf());
+        }
+after `let slice_shreds = block_data.shreds.get(&slice_index)?;`
+        proof {
+            assert(block_data.shreds@.contains_key(slice_index) && *slice_shreds == block_data.shreds@[slice_index]);
+            assert(slice_shreds@[shred_index.0 as int] == row_at(block_data.shreds@, slice_index, shred_index.0 as int));
+        }
 @*/
 /*@ extract src/consensus/blockstore.rs :: impl Blockstore for BlockstoreImpl/fn create_double_merkle_proof
 props C14 C10
@@ -755,7 +788,7 @@ blockend `self.last_slice = Some(slice_index);`
             assert forall|k: SliceIndex| #[trigger] self.shreds@.contains_key(k) implies k.0 <= slice_index.0 by {}
             assert forall|k: SliceIndex, i: int| self.shreds@.contains_key(k) && 0 <= i < TOTAL_SHREDS && (#[trigger] row_at(self.shreds@, k, i)) is Some implies
                 (row_at(self.shreds@, k, i)->0).spec_payload().header.slice_index == k
-                && self.cc().contains_key(k) && self.cc()[k] == (row_at(self.shreds@, k, i)->0).spec_commitment() by {
+                && self.commitment_cache@.contains_key(k) && self.commitment_cache@[k] == ((row_at(self.shreds@, k, i)->0).spec_commitment(), (row_at(self.shreds@, k, i)->0).spec_sig()) by {
                 assert(pre.shreds@.contains_key(k) && self.shreds@[k] == pre.shreds@[k]);
                 assert(row_at(self.shreds@, k, i) == row_at(pre.shreds@, k, i));
             }
@@ -903,7 +936,7 @@ before `match self.last_slice {`
             assert(a.cc().contains_key(slice_index) && a.cc()[slice_index] == shred.spec_commitment());
             assert forall|k: SliceIndex, i: int| a.shreds@.contains_key(k) && 0 <= i < TOTAL_SHREDS && (#[trigger] row_at(a.shreds@, k, i)) is Some implies
                 (row_at(a.shreds@, k, i)->0).spec_payload().header.slice_index == k
-                && a.cc().contains_key(k) && a.cc()[k] == (row_at(a.shreds@, k, i)->0).spec_commitment() by {
+                && a.commitment_cache@.contains_key(k) && a.commitment_cache@[k] == ((row_at(a.shreds@, k, i)->0).spec_commitment(), (row_at(a.shreds@, k, i)->0).spec_sig()) by {
                 assert(row_at(pre.shreds@, k, i) == row_at(a.shreds@, k, i));
             }
             assert(a.wf());
@@ -935,7 +968,7 @@ after `verif_row_set(slice_shreds, shred_index.inner(), Some(shred));`
             assert(rowc@ == rowb@.update(shred_index.0 as int, Some(shred)));
             assert forall|k: SliceIndex, i: int| c.shreds@.contains_key(k) && 0 <= i < TOTAL_SHREDS && (#[trigger] row_at(c.shreds@, k, i)) is Some implies
                 (row_at(c.shreds@, k, i)->0).spec_payload().header.slice_index == k
-                && c.cc().contains_key(k) && c.cc()[k] == (row_at(c.shreds@, k, i)->0).spec_commitment() by {
+                && c.commitment_cache@.contains_key(k) && c.commitment_cache@[k] == ((row_at(c.shreds@, k, i)->0).spec_commitment(), (row_at(c.shreds@, k, i)->0).spec_sig()) by {
                 if k == slice_index {
                     if i != shred_index.0 as int {
                         assert(rowc@[i] == rowb@[i]);
@@ -1009,7 +1042,7 @@ requires
         old(self).completed is None,
         shreds@[0].spec_payload().header.slice_index.0 < 1024,
         !old(self).cc().contains_key(shreds@[0].spec_payload().header.slice_index),
-        forall|i: int| 0 <= i < TOTAL_SHREDS ==> (#[trigger] shreds@[i]).spec_commitment() == shreds@[0].spec_commitment()
+        forall|i: int| 0 <= i < TOTAL_SHREDS ==> (#[trigger] shreds@[i]).spec_commitment() == shreds@[0].spec_commitment() && shreds@[i].spec_sig() == shreds@[0].spec_sig()
             && shreds@[i].spec_payload().header.slice_index == shreds@[0].spec_payload().header.slice_index,
         shreds@[0].spec_payload().header.slice_index.0 == 0 ==> payload.parent is Some,
 ensures
@@ -1037,7 +1070,7 @@ after `self.commitment_cache .insert(slice_index, (commitment, any_shred.slice_s
         proof {
             assert forall|k: SliceIndex, i: int| self.shreds@.contains_key(k) && 0 <= i < TOTAL_SHREDS && (#[trigger] row_at(self.shreds@, k, i)) is Some implies
                 (row_at(self.shreds@, k, i)->0).spec_payload().header.slice_index == k
-                && self.cc().contains_key(k) && self.cc()[k] == (row_at(self.shreds@, k, i)->0).spec_commitment() by {
+                && self.commitment_cache@.contains_key(k) && self.commitment_cache@[k] == ((row_at(self.shreds@, k, i)->0).spec_commitment(), (row_at(self.shreds@, k, i)->0).spec_sig()) by {
                 assert(row_at(pre.shreds@, k, i) is Some);
             }
             assert(self.wf());
@@ -1049,7 +1082,7 @@ before `let block_info =`
             assert(mid.wf());
             assert forall|k: SliceIndex, i: int| self.shreds@.contains_key(k) && 0 <= i < TOTAL_SHREDS && (#[trigger] row_at(self.shreds@, k, i)) is Some implies
                 (row_at(self.shreds@, k, i)->0).spec_payload().header.slice_index == k
-                && self.cc().contains_key(k) && self.cc()[k] == (row_at(self.shreds@, k, i)->0).spec_commitment() by {
+                && self.commitment_cache@.contains_key(k) && self.commitment_cache@[k] == ((row_at(self.shreds@, k, i)->0).spec_commitment(), (row_at(self.shreds@, k, i)->0).spec_sig()) by {
                 if k == slice_index {
                     assert(row_at(self.shreds@, k, i) == Some(sh0@[i]));
                 } else {
@@ -1069,7 +1102,7 @@ requires
         old(self).disseminated.wf(), old(self).disseminated.last_slice is None, old(self).disseminated.completed is None,
         shreds@[0].spec_payload().header.slice_index.0 < 1024,
         !old(self).disseminated.cc().contains_key(shreds@[0].spec_payload().header.slice_index),
-        forall|i: int| 0 <= i < TOTAL_SHREDS ==> (#[trigger] shreds@[i]).spec_commitment() == shreds@[0].spec_commitment()
+        forall|i: int| 0 <= i < TOTAL_SHREDS ==> (#[trigger] shreds@[i]).spec_commitment() == shreds@[0].spec_commitment() && shreds@[i].spec_sig() == shreds@[0].spec_sig()
             && shreds@[i].spec_payload().header.slice_index == shreds@[0].spec_payload().header.slice_index,
         shreds@[0].spec_payload().header.slice_index.0 == 0 ==> payload.parent is Some,
 ensures
@@ -1097,7 +1130,7 @@ requires
             d.wf() && d.last_slice is None && d.completed is None && !d.cc().contains_key(shreds@[0].spec_payload().header.slice_index)
         }),
         shreds@[0].spec_payload().header.slice_index.0 < 1024,
-        forall|i: int| 0 <= i < TOTAL_SHREDS ==> (#[trigger] shreds@[i]).spec_commitment() == shreds@[0].spec_commitment()
+        forall|i: int| 0 <= i < TOTAL_SHREDS ==> (#[trigger] shreds@[i]).spec_commitment() == shreds@[0].spec_commitment() && shreds@[i].spec_sig() == shreds@[0].spec_sig()
             && shreds@[i].spec_payload().header.slice_index == shreds@[0].spec_payload().header.slice_index,
         shreds@[0].spec_payload().header.slice_index.0 == 0 ==> payload.parent is Some,
 ensures
